@@ -1529,16 +1529,17 @@ func (c *Curve[B, S]) scalarMulGLVAndFakeGLV(P *AffinePoint[B], s *emulated.Elem
 		panic(err)
 	}
 
-	// handle 0-scalar and (-1)-scalar cases
-	var selector0 frontend.Variable
+	// handle 0-scalar, 1-scalar and (-1)-scalar cases. In these cases the
+	// result is known ((0,0), P and -P respectively) and the generic part of
+	// the algorithm is run on dummy inputs.
+	var selector0, isZeroS, isOneS, isMinusOneS frontend.Variable
 	_s := s
 	if cfg.CompleteArithmetic {
 		one := c.scalarApi.One()
-		selector0 = c.api.Or(
-			c.scalarApi.IsZero(s),
-			c.scalarApi.IsZero(
-				c.scalarApi.Add(s, one)),
-		)
+		isZeroS = c.scalarApi.IsZero(s)
+		isOneS = c.scalarApi.IsZero(c.scalarApi.Sub(s, one))
+		isMinusOneS = c.scalarApi.IsZero(c.scalarApi.Add(s, one))
+		selector0 = c.api.Or(c.api.Or(isZeroS, isOneS), isMinusOneS)
 		_s = c.scalarApi.Select(selector0, one, s)
 	}
 
@@ -1622,18 +1623,20 @@ func (c *Curve[B, S]) scalarMulGLVAndFakeGLV(P *AffinePoint[B], s *emulated.Elem
 	}
 	Q := &AffinePoint[B]{X: *point[0], Y: *point[1]}
 
-	// handle (0,0)-point
-	var _selector0, _selector1 frontend.Variable
+	// handle (0,0)-point and the special scalars
+	var _selector0, skip frontend.Variable
 	_P := P
 	if cfg.CompleteArithmetic {
-		// if Q=(0,0) we assign a dummy point to Q and continue
-		Q = c.Select(selector0, &c.GeneratorMultiples()[3], Q)
-		// if P=(0,0) we assign a dummy point to P and continue
+		// if P=(0,0) or s ∈ {0, 1, -1} then the result does not depend on the
+		// hinted point (see the end of the method). We assign fixed dummy
+		// points to both P and Q and continue. The decision must not depend on
+		// the hinted point Q, otherwise a malicious hint can switch the check
+		// off. Both dummies are fixed so that they cannot collide with the
+		// input point.
 		_selector0 = c.api.And(c.baseApi.IsZero(&P.X), c.baseApi.IsZero(&P.Y))
-		_P = c.Select(_selector0, &c.GeneratorMultiples()[4], P)
-		// if s=±1 we assign a dummy point to Q and continue
-		_selector1 = c.baseApi.IsZero(c.baseApi.Sub(&P.X, &Q.X))
-		Q = c.Select(_selector1, &c.GeneratorMultiples()[3], Q)
+		skip = c.api.Or(selector0, _selector0)
+		Q = c.Select(skip, &c.GeneratorMultiples()[3], Q)
+		_P = c.Select(skip, &c.GeneratorMultiples()[4], P)
 	}
 
 	// precompute -P, -Φ(P), Φ(P)
@@ -1778,12 +1781,24 @@ func (c *Curve[B, S]) scalarMulGLVAndFakeGLV(P *AffinePoint[B], s *emulated.Elem
 	// Acc should be now equal to [2^nbits]G
 	gm := c.GeneratorMultiples()[nbits-1]
 	if cfg.CompleteArithmetic {
-		Acc = c.Select(c.api.Or(c.api.Or(selector0, _selector0), _selector1), &gm, Acc)
+		Acc = c.Select(skip, &gm, Acc)
 	}
 	c.AssertIsEqual(Acc, &gm)
 
-	return &AffinePoint[B]{
+	res := &AffinePoint[B]{
 		X: *point[0],
 		Y: *point[1],
 	}
+	if cfg.CompleteArithmetic {
+		// in the special cases the check above is void and the hinted point is
+		// not constrained: return the known result instead.
+		//   - s = 1: P
+		//   - s = -1: -P
+		//   - s = 0 or P = (0,0): (0,0)
+		zero := c.baseApi.Zero()
+		res = c.Select(isOneS, P, res)
+		res = c.Select(isMinusOneS, c.Neg(P), res)
+		res = c.Select(c.api.Or(isZeroS, _selector0), &AffinePoint[B]{X: *zero, Y: *zero}, res)
+	}
+	return res
 }
